@@ -185,4 +185,98 @@ def _framing(prog, chk, L4):
         chk.ok(L4, 'zlib_uncompress: int32 BE length at offset 0, stream from offset 4', locstr(zu.node))
     elif not ok_read:
         chk.violation(L4, 'zlib_uncompress|no-prefix', locstr(zu.node), 'decompressor does not read the length prefix')
+    _deflate_complete(prog, chk, L4, zc)
     # every compressed codec goes through these two functions: checked per codec above (framing)
+
+
+def _deflate_complete(prog, chk, L4, zc):
+    """The stream appended after the prefix must be ONE COMPLETE deflate stream for every
+    payload size: finite evaluation of the compressor's chunk loop for payload sizes at every
+    boundary of its own comparisons (0, 1, chunk-1, chunk, chunk+1, 2*chunk-1, 2*chunk,
+    2*chunk+1, 3*chunk): the input handed to deflate() must add up to the payload, the last
+    call must pass Z_FINISH, and the loop must end."""
+    from ..feval import Evaluator, UNKNOWN
+    from . import c05
+    outer = [n for n in children(zc.body) if n.get('kind') in ('DoStmt', 'WhileStmt')]
+    if len(outer) != 1:
+        raise AnalysisBroken('zlib_compress: expected one top-level loop, found %d' % len(outer))
+    outer = outer[0]
+    if outer['kind'] == 'DoStmt':
+        obody, ocond = children(outer)[0], children(outer)[1]
+        test_first = False
+    else:
+        ocond, obody = children(outer)[0], children(outer)[-1]
+        test_first = True
+    vars_ = {x.get('name'): x for x in walk(zc.body) if x.get('kind') == 'VarDecl'}
+    strm = [x for x in walk(zc.body) if x.get('kind') == 'VarDecl' and 'z_stream' in (x.get('type') or '')]
+    if 'ptr' not in vars_ or 'end' not in vars_ or len(strm) != 1:
+        raise AnalysisBroken('zlib_compress: ptr / end / z_stream variables not found')
+    sid = strm[0]['id']
+    chunk = None
+    for nm in ('chunk_size',):
+        if nm in vars_:
+            chunk = program.literal_value(vars_[nm])
+    if not isinstance(chunk, int) or chunk <= 0:
+        raise AnalysisBroken('zlib_compress: chunk size constant not found')
+    Z_FINISH = 4
+    sizes = sorted({0, 1, chunk - 1, chunk, chunk + 1, 2 * chunk - 1, 2 * chunk, 2 * chunk + 1, 3 * chunk})
+    for size in sizes:
+        ev = Evaluator(prog, zc, lambda *a, **k: NotImplemented)
+        ev.inner_cond = []
+        ev.in_left = None
+        ev.deflate_calls = []
+        c05._patch(ev, sid, 0, False)
+        env = {vars_['ptr']['id']: 0, vars_['end']['id']: size}
+        for stx in children(zc.body):
+            if stx.get('kind') == 'DeclStmt':
+                for d in children(stx):
+                    if d.get('kind') == 'VarDecl' and d['id'] not in env:
+                        v = program.literal_value(d)
+                        if isinstance(v, int):
+                            env[d['id']] = v
+        rounds = 0
+        outcome = None
+        while rounds < 8:
+            if test_first and c05._cond(ev, ocond, env) == 'exits':
+                outcome = 'exits'
+                break
+            rounds += 1
+            sts = list(ev.exec(obody, env, ()))
+            if len(sts) != 1 or sts[0][0] is not None:
+                kinds = [st.kind if st is not None else 'normal' for st, _ in sts]
+                if kinds == ['break']:
+                    outcome = 'exits'
+                    env = sts[0][1]
+                    break
+                raise AnalysisBroken('zlib_compress: chunk loop body is not deterministic for payload '
+                                     'size %d (%s): outside the modelled subset' % (size, kinds))
+            env = sts[0][1]
+            if any(ev.inner_cond[-1:]):
+                outcome = 'inner loop repeats without progress'
+                break
+            if not test_first and c05._cond(ev, ocond, env) == 'exits':
+                outcome = 'exits'
+                break
+        inst = 'payload of %d byte(s)' % size
+        fed = [a for a, _ in ev.deflate_calls]
+        flushes = [f for _, f in ev.deflate_calls]
+        total = sum(a for a in fed if isinstance(a, int)) if all(isinstance(a, int) for a in fed) else None
+        problems = []
+        if outcome != 'exits':
+            problems.append('the chunk loop does not end within 8 rounds (%s)' % outcome)
+        if total != size:
+            problems.append('deflate() is fed %s byte(s) in total' % total)
+        if not flushes or flushes[-1] != Z_FINISH:
+            problems.append('the last deflate() call passes flush=%s, not Z_FINISH: the stream is left '
+                            'unterminated' % (flushes[-1] if flushes else None))
+        if any(f == Z_FINISH for f in flushes[:-1]):
+            problems.append('Z_FINISH is passed before the last chunk')
+        if problems:
+            chk.violation(L4, 'zlib_compress|stream-complete|size %s' % (
+                'multiple of chunk' if size and size % chunk == 0 else
+                ('0' if size == 0 else 'other')), locstr(outer),
+                '%s: %s (calls: %s)' % (inst, '; '.join(problems), ev.deflate_calls),
+                facts={'payload_size': size, 'deflate_calls': [list(map(str, c)) for c in ev.deflate_calls]})
+        else:
+            chk.ok(L4, 'zlib_compress: %s -> %d deflate call(s), last with Z_FINISH' % (inst, len(flushes)),
+                   locstr(outer), site='deflate-complete-%d' % size)
